@@ -91,6 +91,7 @@ func checkC13(cx *Ctx, r *Report) {
 	}
 	r.NotDec = []string{"lexical acceptance of time.Parse", "HTML transport of NUL in RelayState (html/template)"}
 	r.Assume = []string{"chain semantics (C20, re-checked)"}
+	cx.checkDecodesWholeMessage(r, "R-STRICT", "xml.DecodeLogoutRequest")
 	if !cx.requireC20(r) {
 		return
 	}
